@@ -112,6 +112,25 @@ def r2_adoption_decision(chk: Check):
         ends = {o.end for o in outs}
         unk = [u[0] for o in outs for u in o.unknown if u[2] is None]
         chk.require(ends == {want} and not unk, chk.fkey(f, str(sc)), f"aio_process under {sc} gives {sorted(ends)}{' depending on ' + str(unk) if unk else ''}; expected `{want}` ({text})", chk.loc(f.module, f.node))
+    # "running" is "alive": a process that exists (sleeping in I/O, stopped, ...) is running for adoption purposes -- no other condition
+    st = tree.func("connectors.local", "PsutilProcess.aio_state")
+    g3 = CFG(st.node)
+
+    def cls3(n):
+        return ("alive", True) if src(n.ast) in ("self._process.is_running()",) else None
+
+    def stop3(n):
+        if n.kind == "stmt" and isinstance(n.ast, ast.Return):
+            return "return " + (src(n.ast.value) if n.ast.value is not None else "None")
+        return "return None" if n is g3.exit else None
+
+    for alive, want in ((True, "return ProcessState.RUNNING"), (False, "return ProcessState.FINISHED")):
+        outs = walk_table(g3, g3.entry, cls3, {"alive": alive}, lambda n: [], stop3)
+        ends = {o.end for o in outs}
+        unk = [u[0] for o in outs for u in o.unknown if u[2] is None]
+        chk.require(ends == {want} and not unk, chk.fkey(st, f"alive={alive}"),
+                    f"PsutilProcess.aio_state with a process that is {'alive' if alive else 'gone'} gives {sorted(ends)}{' depending on ' + str(unk) if unk else ''}; expected `{want}`: "
+                    "a live job that is not recognised as running is not adopted but launched a second time", chk.loc(st.module, st.node))
     fs = tree.func("connectors.local", "LocalProcess.fromspec")
     hs = [h for h in ast.walk(fs.node) if isinstance(h, ast.ExceptHandler)]
     ok = any(h.type is not None and "NoSuchProcess" in src(h.type) and not any(isinstance(x, ast.Raise) for x in ast.walk(h)) for h in hs)
@@ -175,11 +194,19 @@ def r6_start_regenerates(chk: Check):
     chk.require(bool(pr) and all(any(gr.dominates(p_, s_) for p_ in pr) for s_ in starts) and bool(starts), chk.fkey(run_, "prepare before start"), "aio_run must prepare the job files before starting the process", chk.loc(run_.module, run_.node))
 
 
+def r7_forked_children_harmless(chk: Check):
+    """Adoption needs the pid file of a running job: a forked child of the task body must neither delete it at its exit nor on SIGTERM (= C10.R3, fork protection)"""
+    from .c10 import fork_protection
+
+    fork_protection(chk)
+
+
 RULES = [
     ("R1", "adoption precedes start: job.aio_process() dominates every start; the adoption branch marks RUNNING, waits for the process, ends DONE/ERROR and never starts the job", r1_adoption_precedes_start),
     ("R2", "adoption decision table of CommandLineJob.aio_process (own process / no pid file / vanished / running / not running); a vanished pid maps to None", r2_adoption_decision),
     ("R3", "the job does not depend on the scheduler's life: stdout/stderr to files, no pipe, detached by default, no preexec_fn, stopping the experiment kills nothing", r3_detached),
     ("R6", "every start regenerates the job script and parameter file (prepare writes them on every path, before the process is started)", r6_start_regenerates),
     ("R4", "a relaunch behind a still-running body is serialised by the same lock and then finds the marker, which nothing removes (= C05.R2-R5)", r4_relaunch_serialised),
+    ("R7", "a process forked by the task body drops the runner's exit cleanup and signal handlers: the pid file of the running job survives its helpers (= C10.R3)", r7_forked_children_harmless),
     ("R5", "token holdings left by a dead scheduler are reclaimed after restart: every foreign holding that is read is watched (at construction of the token too) and its watcher deletes it (= C09.R3)", r5_stale_tokens_reclaimed),
 ]
